@@ -2,6 +2,7 @@ package aof
 
 import (
 	"context"
+	"fmt"
 	"io/fs"
 	"sync"
 
@@ -41,6 +42,8 @@ func (d *DiskKV) handleMutation(mut *proto.Mutation) error {
 	case proto.MutationType_REMOVE_KEYS:
 		err = d.memKv.RemoveKeys(context.Background(), mut.GetKeys())
 
+	default:
+		err = fmt.Errorf("unknown mutation type: %s", mut.GetType())
 	}
 	return err
 }
